@@ -18,3 +18,18 @@ def bisect_left(ex, st, args):
     r = E.fresh('bis', E.I)
     st.defs.append(And(0 <= r, r <= n, ForAll([k], Implies(And(0 <= k, k < r), Select(arr, k) < x.t)), ForAll([k], Implies(And(r <= k, k < n), Select(arr, k) >= x.t))))
     return E.SV(r, E.INT)
+
+
+@builtin('copy.deepcopy', 'A-copy: copy.deepcopy of a tuple of free tokens yields as many fresh, pairwise distinct, free tokens (their classes and texts are those of the originals: checked by the L1 _clone contracts and the bounded drivers)')
+def deepcopy_tokens(ex, st, args):
+    src = args[0]; n = ex.llen(st.heap, src)
+    l = ex.alloc(st, 'list'); arr = E.fresh('arr', E.IA); k, j = Int('k!'), Int('j!')
+    hi = E.fresh('alloc', E.I); st.defs.append(hi >= st.heap.alloc + n)
+    st.defs.append(ForAll([k], Implies(And(0 <= k, k < n), And(Select(arr, k) >= st.heap.alloc, Select(arr, k) < hi))))
+    st.defs.append(ForAll([j, k], Implies(And(0 <= j, j < k, k < n), Select(arr, j) != Select(arr, k))))
+    try:
+        gs = ex.hget(st.heap, ('RawTokenModel', 'g_store'), E.Ref('TokenStore'))
+        st.defs.append(ForAll([k], Implies(And(0 <= k, k < n), Select(gs, Select(arr, k)) == 0)))
+    except Exception: pass
+    st.heap.alloc = hi
+    ex.set_list(st, l, n, arr, src.ty); return ex.list_sv(st, l, src.ty)
